@@ -311,6 +311,61 @@ pub fn run(a: &Args) -> i32 {
         let interrupted = !segs.iter().any(|x| x[0] == "whole" && x[1] == 1);
         emit("async_client", "call_abandoned_mid_write", segs, interrupted, json!({"bytes": bytes.len(), "abort_after_ms": delay_ms, "call2_err": r2.is_err()}), &mut out);
     }
+    // callers queued on the writer behind the interrupted one: when it lets go of the writer they must not put a
+    // frame after the torn one (async client: aborted caller; blocking client: write timeout)
+    for delay_ms in [40u64, 120] {
+        let l = TcpListener::bind("127.0.0.1:0").unwrap();
+        let addr = l.local_addr().unwrap();
+        let collector = std::thread::spawn(move || {
+            let (mut s, _) = l.accept().unwrap();
+            std::thread::sleep(Duration::from_millis(900));
+            drain(&mut s, Duration::from_millis(600), Duration::from_secs(30))
+        });
+        let c = rt.block_on(AsyncClient::connect(addr)).unwrap();
+        let body = keyed(big, 611);
+        let c1 = c.clone();
+        let h = rt.spawn(async move { let _ = c1.call_with_formats("/k611", 1, Some(&body), 0).await; });
+        std::thread::sleep(Duration::from_millis(15));
+        let queued: Vec<_> = (0..3u64).map(|i| { let c = c.clone(); rt.spawn(async move {
+            c.call_with_formats_and_timeout(format!("/k{}", 612 + i), 1, Some(&keyed(8 + 100 * i as usize, 612 + i)), 0, Duration::from_millis(1500)).await.is_err()
+        }) }).collect();
+        std::thread::sleep(Duration::from_millis(delay_ms));
+        h.abort();
+        let _ = rt.block_on(h);
+        let errs: Vec<bool> = queued.into_iter().map(|q| rt.block_on(q).unwrap_or(true)).collect();
+        drop(c);
+        let bytes = collector.join().unwrap();
+        let key_by_id = index_keys(&bytes);
+        let segs = segments(&bytes, &|id| key_by_id.get(&id).copied().unwrap_or(611));
+        let interrupted = !segs.iter().any(|x| x[0] == "whole" && x[1] == 1);
+        emit("async_client", "queued_callers_behind_abandoned_write", segs, interrupted, json!({"bytes": bytes.len(), "abort_after_ms": delay_ms, "queued_errs": errs}), &mut out);
+    }
+    {
+        let l = TcpListener::bind("127.0.0.1:0").unwrap();
+        let addr = l.local_addr().unwrap();
+        let collector = std::thread::spawn(move || {
+            let (mut s, _) = l.accept().unwrap();
+            std::thread::sleep(Duration::from_millis(900));
+            drain(&mut s, Duration::from_millis(600), Duration::from_secs(30))
+        });
+        let c = Client::connect(addr).unwrap();
+        c.set_write_timeout(Some(Duration::from_millis(120))).unwrap();
+        let c1 = c.clone();
+        let body = keyed(big, 511);
+        let h = std::thread::spawn(move || { let _ = c1.call_with_formats_and_timeout("/k511", 1, Some(&body), 0, Duration::from_millis(300)); });
+        std::thread::sleep(Duration::from_millis(20));
+        let queued: Vec<_> = (0..3u64).map(|i| { let c = c.clone(); std::thread::spawn(move || {
+            c.call_with_formats_and_timeout(format!("/k{}", 512 + i), 1, Some(&keyed(8 + 100 * i as usize, 512 + i)), 0, Duration::from_millis(1500)).is_err()
+        }) }).collect();
+        let _ = h.join();
+        let errs: Vec<bool> = queued.into_iter().map(|q| q.join().unwrap_or(true)).collect();
+        drop(c);
+        let bytes = collector.join().unwrap();
+        let key_by_id = index_keys(&bytes);
+        let segs = segments(&bytes, &|id| key_by_id.get(&id).copied().unwrap_or(511));
+        let interrupted = !segs.iter().any(|x| x[0] == "whole" && x[1] == 1);
+        emit("client", "queued_callers_behind_write_timeout", segs, interrupted, json!({"bytes": bytes.len(), "queued_errs": errs}), &mut out);
+    }
     // WebSocket client: same abandonment; whatever messages arrive must be whole frames
     {
         let l = TcpListener::bind("127.0.0.1:0").unwrap();
